@@ -8,7 +8,7 @@ use celestia_proto::p2p::pb::{HeaderRequest, HeaderResponse, StatusCode};
 use celestia_types::ExtendedHeader;
 use celestia_types::test_utils::{ExtendedHeaderGenerator, invalidate};
 use lumina_node::node::{HeaderExError, P2pError};
-use lumina_node::verif::header_ex_client::{VClient, VEvent, VFail, VPeer, VReply};
+use lumina_node::verif::header_ex_client::{VClient, VEvent, VPeer, VReply};
 use std::future::Future;
 use std::sync::OnceLock;
 use std::task::Poll;
